@@ -130,7 +130,11 @@ func (p *Proxy) SetAttr(name string, value Object) error {
 			if result == nil {
 				field.SetZero()
 			} else {
-				field.Set(assignableValue(reflect.ValueOf(result), field.Type()))
+				fieldValue, err := assignableValue(reflect.ValueOf(result), field.Type())
+				if err != nil {
+					return err
+				}
+				field.Set(fieldValue)
 			}
 			return nil
 		} else {
@@ -275,7 +279,7 @@ func proxyArgument(conv TypeConverter, paramType reflect.Type, arg Object) (refl
 	if err != nil {
 		return reflect.Value{}, err
 	}
-	return assignableValue(reflect.ValueOf(input), paramType), nil
+	return assignableValue(reflect.ValueOf(input), paramType)
 }
 
 func (p *Proxy) MarshalJSON() ([]byte, error) {
